@@ -15,6 +15,23 @@ type slotCase struct {
 	Tasks   []int `json:"tasks"`   // tasks per process
 	SleepMs int   `json:"sleep_ms"`
 	Delay   string `json:"delay,omitempty"`
+	Pre     bool   `json:"pre,omitempty"` // outputs of every second task exist before the run (those tasks are skipped)
+}
+
+// pre-existing outputs of a slot case and the number of tasks that still execute
+func slotPre(c slotCase) (map[string]string, int) {
+	pre := map[string]string{}
+	exec := 0
+	for i := range c.Cores {
+		for k := 0; k < c.Tasks[i]; k++ {
+			if c.Pre && k%2 == 1 {
+				pre[fmt.Sprintf("p%d.v%d.txt", i, k)] = "old\n"
+			} else {
+				exec++
+			}
+		}
+	}
+	return pre, exec
 }
 
 func slotDesc(c slotCase, rdv int) *Desc {
@@ -149,6 +166,7 @@ func genSlotCase(r *Rng, big bool) slotCase {
 	if r.Intn(3) == 0 {
 		c.Delay = fmt.Sprintf("inc.token:%d", 1+r.Intn(8))
 	}
+	c.Pre = r.Intn(3) == 0
 	return c
 }
 
@@ -166,17 +184,17 @@ func runSlotCase(ctx *Ctx, c slotCase) {
 	if c.Delay != "" {
 		env = append(env, "VERIF_DELAY="+c.Delay)
 	}
-	rr := RunWorkflow(d, RunOpts{Env: env})
-	total := 0
-	for _, t := range c.Tasks {
-		total += t
-	}
+	pre, total := slotPre(c)
+	rr := RunWorkflow(d, RunOpts{Env: env, Pre: pre})
 	key := fmt.Sprintf("%v", c)
 	ctx.Res.Eval(key, len(c.Cores) > 1 || total > c.Max, c)
+	if c.Pre {
+		ctx.Res.Count("with-skipped-tasks")
+	}
 	ctx.Res.Count(fmt.Sprintf("max=%d", c.Max))
 	ctx.Res.Count(fmt.Sprintf("procs=%d", len(c.Cores)))
-	if rr.Exit == -2 {
-		v := Violation{What: "workflow of slot-competing tasks did not terminate (deadlock or hang)", Class: "slots.deadlock", Witness: c}
+	if rr.Exit == -2 || (rr.Exit == 2 && strings.Contains(rr.Stderr, "all goroutines are asleep")) {
+		v := Violation{What: "workflow of slot-competing tasks did not terminate (deadlock or hang; exit " + fmt.Sprint(rr.Exit) + ")", Class: "slots.deadlock", Witness: c}
 		if ctx.Prop == "C07" {
 			ctx.Res.Violate(v)
 		} else {
@@ -204,7 +222,7 @@ func runSlotCase(ctx *Ctx, c slotCase) {
 	// inc.enter, inc.locked, inc.token^cores, inc.unlocked ... dec.enter, dec.token^cores
 	perG := map[string][]TraceEv{}
 	for _, e := range rr.Trace {
-		if strings.HasPrefix(e.Point, "inc.") || strings.HasPrefix(e.Point, "dec.") || e.Point == "exec.start" {
+		if strings.HasPrefix(e.Point, "inc.") || strings.HasPrefix(e.Point, "dec.") || e.Point == "exec.start" || e.Point == "exec.skip" {
 			perG[e.Gid] = append(perG[e.Gid], e)
 		}
 	}
@@ -224,6 +242,9 @@ func runSlotCase(ctx *Ctx, c slotCase) {
 		exp = append(exp, "inc.unlocked", "dec.enter")
 		for i := 0; i < want; i++ {
 			exp = append(exp, "dec.token")
+		}
+		if len(seq) > 0 && seq[0] == "exec.skip" {
+			exp = []string{"exec.skip"} // a skipped task neither takes nor returns slots
 		}
 		if strings.Join(seq, ",") != strings.Join(exp, ",") {
 			ctx.Res.Disagree(Violation{What: fmt.Sprintf("goroutine %s of %s: slot events %v differ from the model's phases %v", g, evs[0].Args[0], seq, exp), Witness: c})
@@ -264,6 +285,7 @@ func checkC06(ctx *Ctx) {
 		n = 120
 	}
 	cases := []slotCase{{Max: 2, Cores: []int{2, 2}, Tasks: []int{3, 3}, SleepMs: 30}, {Max: 3, Cores: []int{2, 1, 3}, Tasks: []int{3, 4, 2}, SleepMs: 25},
+		{Max: 2, Cores: []int{1}, Tasks: []int{12}, SleepMs: 30, Pre: true}, {Max: 2, Cores: []int{2, 1}, Tasks: []int{8, 6}, SleepMs: 30, Pre: true},
 		{Max: 1, Cores: []int{1}, Tasks: []int{6}, SleepMs: 20}, {Max: 4, Cores: []int{3, 2}, Tasks: []int{4, 4}, SleepMs: 25, Delay: "inc.token:5"}}
 	for i := 0; i < n; i++ {
 		cases = append(cases, genSlotCase(r, ctx.Thorough()))
